@@ -94,7 +94,7 @@ prop('C06', src='props/c06_storage.cpp',
      level_text='Acceptance is decided against an independent model of the image for every enumerated/generated buffer; non-secret fields are swept exhaustively around valid images, the 2^256 buffer space is sampled. Exploration. Little-endian host only.')
 
 prop('C07', src='props/c07_wordlists.cpp',
-     plan={'quick': [{'variant': 'asan', 'workers': 16}], 'thorough': [{'variant': 'asan', 'workers': 16}, {'variant': 'rel', 'workers': 16}]},
+     plan={'quick': [{'variant': 'asan', 'workers': 16}, {'variant': 'rel', 'workers': 16}], 'thorough': [{'variant': 'asan', 'workers': 16}, {'variant': 'rel', 'workers': 16}]},
      exhaustive=True,
      rule='exhaustive: every published language x index 0..2047 x phrase position 1..16 (327680 placements): the token the library emits at that position equals the sha256-pinned published word byte for byte, and the phrase built from published words decodes (decode_explicit; decode as well in thorough) to exactly the seed with that coefficient (odd indices in word 3: UNSUPPORTED); '
           'plus per language: 2048 distinct NFKD words stable under NFC->NFKD, separator normalises to U+0020, first four accent-stripped letters pairwise distinct and no word of >= 4 letters a prefix of another (abbreviating languages), library index table (via coin XOR) identical to the published list; registry contains the ten published names. Every placement is non-trivial.',
